@@ -54,6 +54,14 @@ def scoreOf (tbl : List (Node × Score)) (n : Node) : Int :=
   | some (some v) => v
   | _ => 0
 
+/-- the key is a hex string (`hex.DecodeString` succeeds): decided from the INPUT token, never from scores -/
+def keyIsHex (keyTok : String) : Bool :=
+  match str? keyTok with
+  | some k => k.length % 2 == 0 && k.toList.all (fun c => (hexDigit? c).isSome)
+  | none => false
+
+def isPermNodes (a b : List Node) : Bool := a.length == b.length && a.all (fun x => a.count x == b.count x)
+
 def subMultiset (out nodes : List Node) : Bool := out.all fun a => out.count a ≤ nodes.count a
 
 def step (s : St) (kind : String) (args impl : List String) : Option (St × StepOut) :=
@@ -66,7 +74,20 @@ def step (s : St) (kind : String) (args impl : List String) : Option (St × Step
     let has := s.m.nodes.any (·.label == l)
     some ({ s with m := removeNode s.m l }, { obs := ["ok"], branch := if has then "remove.present" else "remove.absent" })
   | "op", ["nodes"] =>
-    some (s, { obs := [nodesTok s.m.nodes], branch := "nodes" })
+    -- the slice order of rh.Nodes is internal: any arrangement of the same multiset is accepted and followed
+    match impl with
+    | [t] => match nodes? t with
+      | some o => if isPermNodes o s.m.nodes then some ({ s with m := { nodes := o } }, { obs := [t], branch := "nodes" })
+                  else some (s, { obs := [nodesTok s.m.nodes], branch := "nodes" })
+      | none => some (s, { obs := [nodesTok s.m.nodes], branch := "nodes" })
+    | _ => some (s, { obs := [nodesTok s.m.nodes], branch := "nodes" })
+  | "one", ["unitfloat", _] =>
+    -- hrw.UInt64ToFloat64(bytes, max, murmur3) on inputs whose low 53 bits are zero: the score function
+    -- needs a value strictly inside (0,1) (log(0) = -Inf); the rehash-on-zero branch provides it
+    let pf := match impl with
+      | ["in01"] => []
+      | other => [s!"side=impl key=unit-float-out-of-range UInt64ToFloat64 returned {sp other} for a hash whose low 53 bits are zero"]
+    some (s, { obs := ["in01"], branch := "unitfloat", propfails := pf })
   | "tbl", key :: entries => do
     let es ← entries.mapM entry?
     let mut seen := s.seenScore
@@ -95,7 +116,9 @@ def step (s : St) (kind : String) (args impl : List String) : Option (St × Step
     let hasNaN := nodes.any (fun x => lookup s.cur x == some none)
     let sc := scoreOf s.cur
     let tie := !hasNaN && hasTie sc nodes
-    let inDom := !hasNaN && nodes.all (fun x => x.weight > 0) && (nodes.map (·.label)).eraseDups.length == len
+    -- the domain is decided from the INPUT only: a hex key, positive weights, distinct labels
+    let inDom := keyIsHex key && nodes.all (fun x => x.weight > 0) && (nodes.map (·.label)).eraseDups.length == len
+    let pfNaN := if inDom && hasNaN then [s!"side=impl key=nan-score Score({key}) is NaN for a node of {nodesTok nodes} although {key} is a hex key"] else []
     let modelOut := getOrderedNodes (fun (_ : Unit) => sc) s.m () n
     match modelOut with
     | .panic => pure (s, { obs := ["panic"], branch := "get.panic" })
@@ -119,7 +142,7 @@ def step (s : St) (kind : String) (args impl : List String) : Option (St × Step
           -- relative order against earlier outputs of the implementation for the same key
           let prev := (s.ghost[key]?).getD []
           let pfRel : List String :=
-            if !(inDom && !tie && isPermPrefix) then [] else
+            if !(inDom && !tie && !hasNaN && isPermPrefix) then [] else
             prev.foldl (fun acc p =>
               if !acc.isEmpty then acc
               else if full then
@@ -132,17 +155,75 @@ def step (s : St) (kind : String) (args impl : List String) : Option (St × Step
               else if p.length == len && nodes.all (p.contains ·) && p.take k ≠ o then
                 [s!"side=impl key=prefix-mismatch key {key} n={n}: full list {nodesTok p}, now {nodesTok o}"]
               else []) []
-          let ghost := if inDom && !tie && full && isPermPrefix then s.ghost.insert key ((o :: prev).take 6) else s.ghost
+          let ghost := if inDom && !tie && !hasNaN && full && isPermPrefix then s.ghost.insert key ((o :: prev).take 6) else s.ghost
           let follow := (tie || hasNaN) && isPermPrefix && adm
           let obs := if follow then ["ok", nodesTok o] else ["ok", nodesTok mo]
-          let br := if hasNaN then "get.nan" else if tie then (if inDom then "get.tie" else "get.tie.outdom")
-            else if full then "get.full" else "get.prefix"
-          (obs, br, pfPerm ++ pfSorted ++ pfTop ++ pfTie ++ pfRel, { s with ghost := ghost })
+          let br := if hasNaN then (if inDom then "get.nan" else "get.nan.outdom")
+            else if tie then (if inDom then "get.tie" else "get.tie.outdom")
+            else (if full then "get.full" else "get.prefix") ++ (if inDom then "" else ".outdom")
+          (obs, br, pfNaN ++ pfPerm ++ pfSorted ++ pfTop ++ pfTie ++ pfRel, { s with ghost := ghost })
       pure (s', { obs, branch, propfails := pf })
   | _, _ => none
 
 def machine : Machine := { σ := St, name := "hrw", init := fun _ => some {}, step := step }
 
+/-! #### `casvol`: the call site lib/store.initCASVolumes (shard directory → volume, GetOrderedNodes(subdir, 1))
+
+     op init <A|B|…> <volume*weight,… in configuration order> => ok | err
+     tbl <subdir> <volume*weight=score> …      scores of an hrw instance configured as initCASVolumes does
+     op vol <A|B|…> <subdir> => <volume> | none       where the symlink of that shard directory points -/
+
+structure VolSt where
+  sets : List (String × List Node) := []
+  curKey : String := ""
+  cur : List (Node × Score) := []
+  chosen : List (String × String × String) := []      -- (tag, subdir, volume) as observed on the implementation
+
+def stepVol (s : VolSt) (kind : String) (args impl : List String) : Option (VolSt × StepOut) :=
+  match kind, args with
+  | "op", ["init", tag, vt] => do
+    let vs ← nodes? vt
+    pure ({ s with sets := (tag, vs) :: s.sets.filter (·.1 ≠ tag) }, { obs := ["ok"], branch := "init" })
+  | "tbl", key :: entries => do
+    let es ← entries.mapM entry?
+    pure ({ s with curKey := key, cur := es }, { branch := "tbl" })
+  | "op", ["vol", tag, key] => do
+    let vs ← (s.sets.find? (·.1 = tag)).map (·.2)
+    if key ≠ s.curKey then none else
+    if vs.any (fun x => (lookup s.cur x).isNone) then none else
+    let hasNaN := vs.any (fun x => lookup s.cur x == some none)
+    let sc := scoreOf s.cur
+    let top := (ordered sc vs).head?
+    let positive := vs.all (·.weight > 0)
+    let inDom := keyIsHex key && positive && (vs.map (·.label)).eraseDups.length == vs.length
+    match impl with
+    | [v] =>
+      let best := vs.foldl (fun m x => max m (sc x)) (vs.head?.map sc |>.getD 0)
+      let isTop := vs.any (fun x => x.label == v && sc x == best)
+      let tie := hasTie sc vs
+      let pfNaN := if keyIsHex key && hasNaN then [s!"side=impl key=nan-score Score({key}) is NaN for a volume"] else []
+      let pfTop := if !hasNaN && !isTop && !vs.isEmpty then [s!"side=impl key=volume-not-top-score shard {key} is placed on {v}, not the highest scoring volume of {nodesTok vs}"] else []
+      -- the same volume set configured in another order must give the same placement
+      let others := s.chosen.filter fun (t, k, _) => t != tag && k == key &&
+        (match s.sets.find? (·.1 = t) with
+        | some (_, ws) => isPermNodes ws vs
+        | none => false)
+      let pfOrd := match others.find? (fun (_, _, w) => w != v) with
+        | some (t, _, w) =>
+          if inDom then [s!"side=impl key=volume-order-dependent shard {key}: volume {v} with configuration order {tag}, {w} with order {t}"]
+          else if !positive then [s!"side=impl key=order-dependent-nonpositive-weight shard {key}: volume {v} with configuration order {tag}, {w} with order {t} (volumes {nodesTok vs})"]
+          else []
+        | none => []
+      let pfTie := if inDom && tie && !hasNaN then [s!"side=impl key=score-tie two volumes of {nodesTok vs} have the same Score({key})"] else []
+      let follow := hasNaN || (tie && isTop)
+      let obs := if follow then [v] else [match top with | some n => n.label | none => "none"]
+      let br := if hasNaN then "vol.nan" else if tie then (if inDom then "vol.tie" else "vol.tie.outdom") else (if inDom then "vol.top" else "vol.top.outdom")
+      pure ({ s with chosen := (tag, key, v) :: s.chosen }, { obs, branch := br, propfails := pfNaN ++ pfTop ++ pfOrd ++ pfTie })
+    | _ => none
+  | _, _ => none
+
+def volMachine : Machine := { σ := VolSt, name := "casvol", init := fun _ => some {}, step := stepVol }
+
 end C22
 
-def main (args : List String) : IO UInt32 := runMachines [C22.machine] args
+def main (args : List String) : IO UInt32 := runMachines [C22.machine, C22.volMachine] args
